@@ -4,6 +4,7 @@
   the rounding back end of C07, both validated by correspondence.)
 -/
 import SonicModel.Lemmas.Decimal
+import SonicModel.Thm.C07
 namespace Sonic.Thm.C08
 open Sonic Impl Spec
 
@@ -40,7 +41,56 @@ theorem int_roundtrip_partial (n : Nat) (bound : Nat) (hn : n < 10 ^ 19) :
     rw [hv]
     simp [decimal_val]
 
+/-! ### every u64 and every i64, wherever the text stands (through the literal theorems of C07) -/
+
+theorem decimal_ne_nil (n : Nat) : decimal n ≠ [] := by
+  rw [decimal]; split
+  · simp
+  · simp
+
+theorem decimal_leading (n : Nat) (h : (decimal n).head? = some 48) : (decimal n).length = 1 := by
+  by_cases hn : n = 0
+  · subst hn; rw [decimal]; simp
+  · obtain ⟨b, hb, hne⟩ := decimal_head n (Nat.pos_of_ne_zero hn)
+    rw [hb] at h; simp at h; exact absurd h hne
+
+/-- the canonical decimal text of `n`, with or without a sign, is a literal of the RFC shape -/
+theorem decimal_lit_wf (neg : Bool) (n : Nat) : (C07.litOf neg (decimal n)).WF :=
+  C07.litOf_wf neg (decimal n) (decimal_ne_nil n) (decimal_digits n) (decimal_leading n)
+
+theorem decimal_lit_mant (neg : Bool) (n : Nat) : (C07.litOf neg (decimal n)).mant = n := by
+  simp only [Lit.mant, C07.litOf, Option.getD_none]
+  have := decimal_val n
+  simpa [listVal, digitsOf] using this
+
+/-- **every u64 reads back as itself**: the canonical decimal text of any `n < 2^64` (what itoa is assumed
+    to print), standing anywhere in a text before a delimiter, is read by `parse_number` as exactly
+    `Unsigned n` with the whole text consumed — all twenty-digit values included -/
+theorem u64_roundtrip (n : Nat) (hn : n < 2 ^ 64) (pre suf : List UInt8) (hs : isDelim suf.head?) (bound : Nat) :
+    parseNumber (pre ++ decimal n ++ suf).toArray bound pre.length false =
+      (.unsigned n, pre.length + (decimal n).length) := by
+  have h := C07.integer_u64_exact (C07.litOf false (decimal n)) (decimal_lit_wf false n) rfl rfl rfl
+    (by rw [decimal_lit_mant]; exact hn) pre suf hs bound
+  rw [decimal_lit_mant] at h
+  simpa [C07.litOf, Lit.render, Lit.signPart, Lit.fracPart, Lit.expPart] using h
+
+/-- **every negative i64 reads back as itself**: `-` followed by the canonical decimal text of any
+    `0 < n ≤ 2^63` is read as exactly `Signed (-n)` — `i64::MIN` included -/
+theorem i64_roundtrip (n : Nat) (h0 : 0 < n) (hn : n ≤ 2 ^ 63) (pre suf : List UInt8) (hs : isDelim suf.head?) (bound : Nat) :
+    parseNumber (pre ++ (45 :: decimal n) ++ suf).toArray bound (pre.length + 1) true =
+      (.signed (-(n : Int)), pre.length + ((decimal n).length + 1)) := by
+  have h := C07.integer_i64_exact (C07.litOf true (decimal n)) (decimal_lit_wf true n) rfl rfl rfl
+    (by rw [decimal_lit_mant]; exact h0) (by rw [decimal_lit_mant]; exact hn) pre suf hs bound
+  rw [decimal_lit_mant] at h
+  simpa [C07.litOf, Lit.render, Lit.signPart, Lit.fracPart, Lit.expPart, Nat.add_comm] using h
+
 /-! non-vacuity / boundary instances (kernel evaluation) -/
+example : parseNumber ([91] ++ decimal 18446744073709551615 ++ [93]).toArray 7 [91].length false =
+    (.unsigned 18446744073709551615, [91].length + (decimal 18446744073709551615).length) :=
+  u64_roundtrip 18446744073709551615 (by decide) [91] [93] (by simp [isDelim]) 7
+example : parseNumber ([91] ++ (45 :: decimal 9223372036854775808) ++ [93]).toArray 7 ([91].length + 1) true =
+    (.signed (-((9223372036854775808 : Nat) : Int)), [91].length + ((decimal 9223372036854775808).length + 1)) :=
+  i64_roundtrip 9223372036854775808 (by decide) (by decide) [91] [93] (by simp [isDelim]) 7
 example : decimal 18446744073709551615 = [49,56,52,52,54,55,52,52,48,55,51,55,48,57,53,53,49,54,49,53] := by decide +kernel
 example : parseNumber (decimal 9999999999999999999).toArray 1000 0 false = (.unsigned 9999999999999999999, 19) := by decide +kernel
 example : parseNumber (decimal 18446744073709551615).toArray 1000 0 false = (.unsigned 18446744073709551615, 20) := by decide +kernel
